@@ -144,13 +144,24 @@ def joins(doc, e, d):
   return (s1, s2) if d == "+" else (oinv(s1), oinv(s2))
 
 
-def fitting(doc, x, y):
-  """All (edge, direction) that join the oriented segments x and y."""
+def joins_directed(doc, e, d):
+  """Reading D (direction by field order): e+ leads from sid1 to sid2, e-
+  from inv(sid2) to inv(sid1).  Returns (from, to)."""
+  s1, s2 = doc.edge[e]
+  return (s1, s2) if d == "+" else (oinv(s2), oinv(s1))
+
+
+def fitting(doc, x, y, directed=False):
+  """All (edge, direction) that join the oriented segments x and y (reading
+  A), or that lead from x to y (reading D)."""
   want = sorted((x, y))
   out = []
   for e in sorted(doc.edge):
     for d in "+-":
-      if sorted(joins(doc, e, d)) == want:
+      if directed:
+        if joins_directed(doc, e, d) == (x, y):
+          out.append((e, d))
+      elif sorted(joins(doc, e, d)) == want:
         out.append((e, d))
   return out
 
@@ -159,13 +170,17 @@ def fitting(doc, x, y):
 # strict minimal walks over a flat sequence of oriented segments and edges
 
 HARD, SOFT = "hard", "soft"
+PE = "#pe"   # pseudo-element (PE, bool): sets the "last segment is implied" flag
 
 
-def _run(doc, walk, pe, rest):
+def _run(doc, walk, pe, rest, directed):
   """Deterministic continuation.  walk: list of (name, o); pe: the last
   element of `walk` was supplied by an edge item and not yet mentioned.
   Returns (walk or None, failure kind or None)."""
   for el in rest:
+    if el[0] == PE:
+      pe = el[1]
+      continue
     k = doc.kind.get(el[0])
     if k == "S":
       if pe:
@@ -173,17 +188,23 @@ def _run(doc, walk, pe, rest):
           return None, SOFT      # segment not incident to the preceding edge
         pe = False
       else:
-        fit = fitting(doc, walk[-1], el)
+        fit = fitting(doc, walk[-1], el, directed)
         if len(fit) != 1:
           return None, HARD      # no edge, or ambiguous
         walk = walk + [fit[0], el]
     elif k == "E":
-      j = joins(doc, el[0], el[1])
-      if walk[-1] not in j:
+      if directed:
+        j = joins_directed(doc, el[0], el[1])
+        ok = walk[-1] == j[0]
+        other = j[1]
+      else:
+        j = joins(doc, el[0], el[1])
+        ok = walk[-1] in j
+        other = j[1] if walk[-1] == j[0] else j[0]
+      if not ok:
         # after an edge: consecutive edges share no junction (hard);
         # after a segment: edge not incident to that segment (soft)
         return None, (HARD if pe else SOFT)
-      other = j[1] if walk[-1] == j[0] else j[0]
       walk = walk + [el, other]
       pe = True
     else:
@@ -191,7 +212,7 @@ def _run(doc, walk, pe, rest):
   return walk, None
 
 
-def strict_walks(doc, flat):
+def strict_walks(doc, flat, directed=False):
   """(set of walks as tuples, some start side failed softly)"""
   walks = set()
   soft = False
@@ -203,14 +224,18 @@ def strict_walks(doc, flat):
   if k == "S":
     starts.append(([first], False))
   elif k == "E":
-    j = joins(doc, first[0], first[1])
-    starts.append(([j[0], first, j[1]], True))
-    if j[0] != j[1]:
-      starts.append(([j[1], first, j[0]], True))
+    if directed:
+      j = joins_directed(doc, first[0], first[1])
+      starts.append(([j[0], first, j[1]], True))
+    else:
+      j = joins(doc, first[0], first[1])
+      starts.append(([j[0], first, j[1]], True))
+      if j[0] != j[1]:
+        starts.append(([j[1], first, j[0]], True))
   else:
     raise Unsupported("flat element of kind {}".format(k))
   for w, pe in starts:
-    res, why = _run(doc, w, pe, flat[1:])
+    res, why = _run(doc, w, pe, flat[1:], directed)
     if res is not None:
       walks.add(tuple(res))
     elif why == SOFT:
@@ -218,9 +243,33 @@ def strict_walks(doc, flat):
   return walks, soft
 
 
+def consistent(w):
+  """No edge is crossed in both directions.  The adjacency reading leaves the
+  direction of an edge open, but whatever it is, it is ONE direction: a walk
+  x e+ y ... y e+ x (or x e+ y ... inv(x) e- inv(y)) is a walk under no
+  directed reading of the E line."""
+  seen = set()
+  for i in range(1, len(w) - 1, 2):
+    e, d = w[i]
+    a, b = w[i - 1], w[i + 1]
+    if d == "-":
+      a, b = oinv(b), oinv(a)
+    if a == b:
+      continue
+    if (e, b, a) in seen:
+      return False
+    seen.add((e, a, b))
+  return True
+
+
 def _classify(walks, soft):
+  """("walks", W): one of W is demanded; ("either", W): the adjacency reading
+  gives W but every member crosses an edge in both directions, so an error is
+  as acceptable as a member of W; ("lenient", why); ("error", why)."""
   if walks:
-    return ("walks", frozenset(walks))
+    if any(consistent(w) for w in walks):
+      return ("walks", frozenset(walks))
+    return ("either", frozenset(walks))
   if soft:
     return ("lenient", "segment / edge not incident to its neighbour")
   return ("error", "non-contiguous or ambiguous")
@@ -282,22 +331,44 @@ def flatten_items(doc, name):
   return out
 
 
-def walks_T(doc, name):
-  return _classify(*strict_walks(doc, flatten_items(doc, name)))
+def walks_T(doc, name, directed=False):
+  return _classify(*strict_walks(doc, flatten_items(doc, name), directed))
 
 
-def walks_C(doc, name):
-  """Reading C: nested groups replaced by their captured walk."""
+def end_implied(doc, name, end):
+  """Is the first (end=0) / last (end=-1) segment of the walk of O group
+  `name` supplied by an edge item rather than mentioned?"""
+  it = doc.group[name].items[end]
+  k = doc.kind.get(it[0])
+  if k == "E":
+    return True
+  if k == "O":
+    return end_implied(doc, it[0], end if it[1] == "+" else (-1 - end))
+  return False
+
+
+def walks_C(doc, name, hybrid=False, directed=False):
+  """Reading C: nested groups replaced by their captured walk.
+  Reading H (hybrid=True): the same, but a last segment of the inlined walk
+  that was only implied by an edge item of the nested group stays "implied":
+  a following segment item may name it, as it may after a plain edge item."""
   parts = []        # list of lists of alternatives (each a tuple of elements)
   for it in doc.group[name].items:
     k = doc.kind.get(it[0])
     if k == "O":
-      sub = walks_C(doc, it[0])
-      if sub[0] != "walks":
-        return sub if sub[0] == "lenient" else ("error", "nested path invalid")
+      sub = walks_C(doc, it[0], hybrid, directed)
+      if sub[0] == "lenient":
+        return sub
+      if sub[0] == "error":
+        return ("error", "nested path invalid")
       alts = sorted(sub[1])
       if it[1] == "-":
         alts = [reverse_walk(w) for w in alts]
+      if hybrid:
+        imp = end_implied(doc, it[0], -1 if it[1] == "+" else 0)
+        alts = [w + ((PE, imp),) for w in alts]
+      if sub[0] == "either":
+        alts = alts + [None]        # the nested path may also be an error
       parts.append(alts)
     elif k in ("S", "E"):
       parts.append([(it,)])
@@ -305,19 +376,45 @@ def walks_C(doc, name):
       raise Unsupported("item of kind {} in an ordered group".format(k))
   walks = set()
   soft = False
+  err_ok = False
   for choice in itertools.product(*parts):
+    if any(part is None for part in choice):
+      err_ok = True
+      continue
     flat = [x for part in choice for x in part]
-    w, s = strict_walks(doc, flat)
+    w, s = strict_walks(doc, flat, directed)
     walks |= w
     soft = soft or s
-  return _classify(walks, soft)
+  v = _classify(walks, soft)
+  if err_ok and v[0] == "walks":
+    v = ("either", v[1])
+  return v
+
+
+def combine(verdicts):
+  """Acceptable outcomes under ANY of the readings."""
+  for v in verdicts:
+    if v[0] == "lenient":
+      return v
+  walks = set()
+  err_ok = False
+  for v in verdicts:
+    if v[0] in ("walks", "either"):
+      walks |= v[1]
+    if v[0] in ("error", "either"):
+      err_ok = True
+  if not walks:
+    return ("error", "non-contiguous or ambiguous")
+  return ("either" if err_ok else "walks", frozenset(walks))
 
 
 def captured(doc, name):
   """Verdict of the model for the captured path of O group `name`:
      ("unresolved", ids)   an item is not defined: an error is expected
-     ("walks", frozenset)  exactly these walks are acceptable
+     ("walks", frozenset)  one of exactly these walks is expected
      ("error", why)        an error is expected
+     ("either", frozenset) an error or one of these walks (readings differ, or
+                           the only walks cross an edge in both directions)
      ("lenient", why)      the specification is silent; only validity of
                            whatever is returned is demanded"""
   if is_cyclic(doc, name):
@@ -325,18 +422,16 @@ def captured(doc, name):
   und = undefined_ids(doc, name)
   if und:
     return ("unresolved", tuple(sorted(set(und))))
-  t = walks_T(doc, name)
-  c = walks_C(doc, name)
-  if t[0] == "walks" and c[0] == "walks" and t[1] == c[1]:
-    return t
-  if t[0] == "error" and c[0] == "error":
-    return ("error", t[1])
-  return ("lenient", "readings differ: items inlined -> {}, walk inlined -> {}"
-          .format(_brief(t), _brief(c)))
+  return combine([f(doc, name, directed=d) for d in (False, True)
+                  for f in (walks_T, walks_C, walks_H)])
+
+
+def walks_H(doc, name, directed=False):
+  return walks_C(doc, name, True, directed)
 
 
 def _brief(v):
-  if v[0] == "walks":
+  if v[0] in ("walks", "either"):
     return "|".join(" ".join(ostr(x) for x in w) for w in sorted(v[1]))
   return v[0]
 
